@@ -32,3 +32,9 @@ def call_apply(f, arities, max_fixed_arity, args):
     """(apply f a b ... coll) on a compiled function: the decorator's apply_to is installed, then runtime.apply runs"""
     f.apply_to = rt._fn_apply_to(f, arities, max_fixed_arity)
     return rt.apply(f, args)
+
+
+def call_apply_var(v, f, arities, max_fixed_arity, args):
+    """(apply #'f a b ... coll): the Var v holds the compiled function f"""
+    f.apply_to = rt._fn_apply_to(f, arities, max_fixed_arity)
+    return rt.apply(v, args)
